@@ -12,6 +12,10 @@ from pvc.harness import unit
 from pvc import src as S, kern as K, twin as T, ev as E
 from pvc.val import *  # noqa
 
+# property-level native oracle used as the replay of refuted obligations that carry no model-specific replay
+FALLBACK_REPLAY = {"handler": "bounded_named", "input": {"what": "engine_equivalence", "check": "engines-agree"},
+                   "expected": "use_numba=True and use_numba=False give the same result tables (rtol 1e-9)"}
+
 BR = "pandapipes.idx_branch"
 ND = "pandapipes.idx_node"
 TB = "pandapipes.pf.derivative_toolbox"
@@ -510,3 +514,20 @@ def cache_stale(ctx):
 def cache_drop(ctx):
     from contracts.C12 import cache_dropped
     cache_dropped(ctx)
+
+
+
+@unit("C07", "bounded/engine_equivalence", functions=["pandapipes.pipeflow:pipeflow"], engine="bounded")
+def engine_equivalence_bounded(ctx):
+    """property-level bounded stand-in (and fallback replay): whole calculations with both engines"""
+    from pvc.harness import venv_run
+    inp = {"what": "engine_equivalence"}
+    res = venv_run("bounded.py", inp, timeout=3000)["checks"]
+    scope = ("15 configurations x both engines: a gas network (hgas, 2-D compressibility, 5 pipes incl. two drawn against the flow, a "
+             "dead-end pipe with zero flow, 1/2/3 sections, heights, temperature gradient) x {hydraulics, sequential, bidirectional} and a "
+             "water loop (pressure circulation pump, heat exchanger against the flow, two heat consumers of different modes, outer != inner "
+             "diameter) x {sequential, bidirectional}, each x {nikuradse, swamee-jain, colebrook}; every res_* table, rtol 1e-9; friction "
+             "factor / Reynolds number on zero-flow rows judged separately")
+    for k, v in res.items():
+        ctx.bounded(k, v["ok"], scope, v["cases"], witness=v.get("witness"),
+                    replay={"handler": "bounded_named", "input": {"what": "engine_equivalence", "check": k}} if not v["ok"] else None)
